@@ -19,10 +19,11 @@ C06 — a schema traced from samples accepts those same samples: the chain close
   C06_closure_readback_partial  … and `deserialize_any` on the arrays returns those logical values (`Props.C02.read_any_decode`)
 
 Exclusions, each an explicit decidable predicate on (data type of the traced field, sample) — `Lemmas/C06Excl.lean`:
-the three DOCUMENTED ones `nullAtEnum`, `dateLookalike`, `u64AboveI64`; the known finding `dataLessNewtype`; the finding of
-this proof `unitStructAtValue`; lifted to nested samples by `hits` (some position the mapping visits).  On the builder
-side: `total` (known finding `C06-unseen-first-variant-default`, `Props.C01.default_refused`), C01's `Safe`
-(dictionaries below nullable structs), capacity.  `excl_*_needed`: each exclusion is needed (a traced collection whose
+the three DOCUMENTED ones `nullAtEnum`, `dateLookalike`, `u64AboveI64`; the known finding `dataLessNewtype`; lifted to
+nested samples by `hits` (some position the mapping visits).  (The finding of this proof, `unitStructAtValue`, is repaired —
+repo fix ae2fc46, `unitStruct_accepted` / `unitStruct_pinned` — and no longer an exclusion.)  On the builder
+side: `total` (C01's schema-level condition; its traced instance, finding `C06-unseen-first-variant-default`, is repaired —
+repo fix 837fa53, `Props.C01.default_first_real`), C01's `Safe` (dictionaries below nullable structs), capacity.  `excl_*_needed`: each exclusion is needed (a traced collection whose
 sample the mapping refuses exactly there).
 Repaired code (`Code.fixed`), options without overwrites (an overwrite replaces a traced field by an arbitrary one).
 -/
@@ -82,7 +83,7 @@ theorem interpDT_struct_md (ext : Ext) (fs : Fields) (n : Bool) (md md' : Metada
   | .seq _ => by simp [interpDT, isUnknownVariant]
   | .tuple _ => by simp [interpDT, isUnknownVariant]
   | .tupleStruct _ _ => by simp [interpDT, isUnknownVariant]
-  | .unitStruct _ => by simp [interpDT, isUnknownVariant]
+  | .unitStruct _ => by simp [interpDT, interpNull, isUnknownVariant]
   | .record _ _ => by simp [interpDT, isUnknownVariant]
   | .map _ => by simp [interpDT, isUnknownVariant]
   | .mapRaw _ => by simp [interpDT, isUnknownVariant]
@@ -125,9 +126,11 @@ theorem fromSamples_interpRow (o : Options) (ext : Ext) (h0 : o.overwrites = [])
 `to_marrow ext fields xs` succeeds (`runRows`), and `to_marrow` is what `build_arrays` makes of the final builder state.
 Hypotheses, all explicit:
   `hok`    the samples are serde values a Rust program can produce (`sampleOK`);
-  `hex`    none of the exclusions: the three documented ones, `dataLessNewtype` (known finding), `unitStructAtValue` (finding);
-  `htot`   C01's `total`: a nullable struct's children support `serialize_default` — false exactly in the known finding
-           `C06-unseen-first-variant-default` (`Props.C01.default_refused`);
+  `hex`    none of the exclusions: the three documented ones and `dataLessNewtype` (known finding);
+  `htot`   C01's `total`: a nullable struct's children support `serialize_default` (a union through its first variant that
+           is not an `UnknownVariant` placeholder: since repo fix 837fa53 the traced shape of the former finding
+           `C06-unseen-first-variant-default` is INSIDE `total`, `Props.C01.default_first_real`) and unions have at most
+           128 variants; not yet derived for traced schemas in general;
   `hsafe`  C01's `Safe` (no dictionary with non-nullable keys below a nullable struct: C01's known exclusion
            `dict_placeholder_unstable`; holds for every traced schema without dictionaries, `Lemmas.C06.to_schema_safe`);
   (that `build_builder` accepts the traced schema is PROVED: `Lemmas.C06.newRoot_traced`)
@@ -278,11 +281,30 @@ theorem excl_dataLessNewtype_needed :
       (itemsOf [.unitVariant "E" 1 "V1", .newtypeVariant "E" 2 "V2" .none, .unitVariant "E" 0 "V0"]) 1 = true := by
   decide +kernel
 
+/-! ### the repaired finding `C06-unit-struct-into-value` (repo fix ae2fc46) -/
+
+/-- tracing succeeds, every sample is well formed, not excluded and has a mapping at the traced schema, and `to_marrow`
+accepts the collection -/
+def acceptedB (o : Options) (xs : List SVal) : Bool :=
+  match fromSamples .fixed o xs with
+  | .ok fields =>
+    xs.all (fun x => sampleOK o.map_as_struct x && !excludedRow {} fields x && (interpRow {} fields x).isOk) &&
+      (toMarrow {} fields xs).isOk
+  | _ => false
+
 set_option maxRecDepth 1000000 in
-/-- FINDING `C06-unit-struct-into-value` (found by this proof, confirmed on the real crate: `to_marrow` answers
-"serialize_unit_struct is not supported"): `[1i32, UnitStruct]` traces to a nullable Int32 which does not take the unit
-struct -/
-theorem excl_unitStructAtValue_needed :
-    neededB {} unitStructAtValue (itemsOf [i32 1, .unitStruct "U"]) 1 = true := by decide +kernel
+/-- **Repaired**: `[1i32, UnitStruct]` traces to a nullable Int32 (a unit struct is traced like `()`); since the default
+`serialize_unit_struct` forwards to `serialize_unit`, the Int32 builder takes the unit struct as a null, the documented
+mapping says null, and no exclusion is needed (the former `unitStructAtValue` is gone from `exclAny`). -/
+theorem unitStruct_accepted : acceptedB {} (itemsOf [i32 1, .unitStruct "U"]) = true := by decide +kernel
+
+/-- **Pinned**: before ae2fc46 the default `serialize_unit_struct` refused, so `push` of a unit struct was the scalar call
+`ctx b.ann (pushScalar ext b (.unitStruct n))` on every builder — on the traced nullable Int32 column the error the real
+crate gave (`to_marrow` rejected a collection the schema was traced from). -/
+theorem unitStruct_pinned :
+    (ctx (B.leaf "$.item" (.int .i32) (some [true]) [1]).ann
+      (pushScalar {} (.leaf "$.item" (.int .i32) (some [true]) [1]) (.unitStruct "U")) : R B) =
+      .error (.errCtx "serialize_unit_struct is not supported" [("data_type", "Int32"), ("field", "$.item")]) := by
+  decide +kernel
 
 end SaModel.Props.C06
